@@ -27,84 +27,97 @@ InfixOps == <<"||", "&&", "<=>", "==", "!=", "===", "!==", "<", "<=", ">", ">=",
               "<<", ">>", "+", "-", "*", "/", "//", "%", "**">>
 
 Tok(k, s)  == [k |-> k, s |-> s, l |-> 0]
+CasgOp(c) == CASE c = "+=" -> "+" [] c = "-=" -> "-" [] c = "*=" -> "*" [] OTHER -> "?"
 Inf(op)    == [k |-> "inf", s |-> op, l |-> InfixLevel(op)]
 
 K(ts, i) == IF i <= Len(ts) THEN ts[i].k ELSE "eof"
 S(ts, i) == IF i <= Len(ts) THEN ts[i].s ELSE ""
-Res(t, n, lit) == [t |-> t, n |-> n, lit |-> lit, ok |-> TRUE]
-Fail(n) == [t |-> "SYNTAX", n |-> n, lit |-> FALSE, ok |-> FALSE]
+(* t: the source with the table's parentheses added;  a: the tree as the parser's ast prints it (String()):  *)
+(* infix and prefix nodes in parentheses, grouping parentheses gone, f(x) as f.call(x), x[i] as x.at([i]),     *)
+(* a property without arguments as name(), `x += r` as (x := (x + r)), `l => x` as (x := l), -<int> folded.     *)
+Res(t, a, n, lit) == [t |-> t, a |-> a, n |-> n, lit |-> lit, ok |-> TRUE]
+Fail(n) == [t |-> "SYNTAX", a |-> "SYNTAX", n |-> n, lit |-> FALSE, ok |-> FALSE]
 
-RECURSIVE PE(_, _, _), Loop(_, _, _, _), Args(_, _), Prim(_, _)
+RECURSIVE PE(_, _, _), Loop(_, _, _, _, _), Args(_, _), Prim(_, _)
 (* comma separated expressions up to ")" ; returns text and the index of ")" *)
 Args(ts, i) ==
-  IF K(ts, i) = "rp" THEN Res("", i, FALSE)
+  IF K(ts, i) = "rp" THEN Res("", "", i, FALSE)
   ELSE LET a == PE(ts, i, 0) IN
        IF ~a.ok THEN a
        ELSE IF K(ts, a.n) = "comma" THEN
-              LET r == Args(ts, a.n + 1) IN IF ~r.ok THEN r ELSE Res(a.t \o ", " \o r.t, r.n, FALSE)
-            ELSE IF K(ts, a.n) = "rp" THEN Res(a.t, a.n, FALSE) ELSE Fail(a.n)
+              LET r == Args(ts, a.n + 1) IN IF ~r.ok THEN r ELSE Res(a.t \o ", " \o r.t, a.a \o ", " \o r.a, r.n, FALSE)
+            ELSE IF K(ts, a.n) = "rp" THEN Res(a.t, a.a, a.n, FALSE) ELSE Fail(a.n)
 
 Prim(ts, i) ==
   CASE K(ts, i) = "pre" ->
          LET r == PE(ts, i + 1, LUnary) IN
-         IF ~r.ok THEN r ELSE Res("(" \o S(ts, i) \o r.t \o ")", r.n, FALSE)
-    [] K(ts, i) = "int" -> Res(S(ts, i), i + 1, TRUE)
+         IF ~r.ok THEN r
+         ELSE Res("(" \o S(ts, i) \o r.t \o ")",
+                  IF S(ts, i) = "-" /\ r.lit THEN "-" \o r.a ELSE "(" \o S(ts, i) \o r.a \o ")", r.n, FALSE)
+    [] K(ts, i) = "int" -> Res(S(ts, i), S(ts, i), i + 1, TRUE)
     [] K(ts, i) = "id" ->
          IF K(ts, i + 1) = "asg" THEN       \* assignment: identifier target, right associative
             LET r == PE(ts, i + 2, LRAssign) IN
-            IF ~r.ok THEN r ELSE Res("(" \o S(ts, i) \o " := " \o r.t \o ")", r.n, FALSE)
+            IF ~r.ok THEN r ELSE Res("(" \o S(ts, i) \o " := " \o r.t \o ")", "(" \o S(ts, i) \o " := " \o r.a \o ")", r.n, FALSE)
          ELSE IF K(ts, i + 1) = "casg" THEN
             LET r == PE(ts, i + 2, LRAssign) IN
-            IF ~r.ok THEN r ELSE Res("(" \o S(ts, i) \o " " \o S(ts, i + 1) \o " " \o r.t \o ")", r.n, FALSE)
-         ELSE Res(S(ts, i), i + 1, FALSE)
+            IF ~r.ok THEN r ELSE Res("(" \o S(ts, i) \o " " \o S(ts, i + 1) \o " " \o r.t \o ")",
+                                     "(" \o S(ts, i) \o " := (" \o S(ts, i) \o " " \o CasgOp(S(ts, i + 1)) \o " " \o r.a \o "))", r.n, FALSE)
+         ELSE Res(S(ts, i), S(ts, i), i + 1, FALSE)
     [] K(ts, i) = "lp" ->
          LET r == PE(ts, i + 1, 0) IN
-         IF ~r.ok THEN r ELSE IF K(ts, r.n) = "rp" THEN Res("(" \o r.t \o ")", r.n + 1, FALSE) ELSE Fail(r.n)
+         IF ~r.ok THEN r ELSE IF K(ts, r.n) = "rp" THEN Res("(" \o r.t \o ")", r.a, r.n + 1, FALSE) ELSE Fail(r.n)
     [] OTHER -> Fail(i)
 
-Loop(ts, left, j, m) ==
+Loop(ts, left, la, j, m) ==
   LET k == K(ts, j) IN
   CASE k = "call" /\ LCall > m ->           \* f(args): "call" is the opening parenthesis of a call
          LET a == Args(ts, j + 1) IN IF ~a.ok THEN a
-         ELSE Loop(ts, "(" \o left \o "(" \o a.t \o "))", a.n + 1, m)
+         ELSE Loop(ts, "(" \o left \o "(" \o a.t \o "))", la \o ".call(" \o a.a \o ")", a.n + 1, m)
     [] k = "lb" /\ LIndex > m ->
          LET a == PE(ts, j + 1, 0) IN IF ~a.ok THEN a
          ELSE IF K(ts, a.n) # "rb" THEN Fail(a.n)
-         ELSE Loop(ts, "(" \o left \o "[" \o a.t \o "])", a.n + 1, m)
+         ELSE Loop(ts, "(" \o left \o "[" \o a.t \o "])", la \o ".at([" \o a.a \o "])", a.n + 1, m)
     [] k = "chain" /\ LChain > m ->
          IF K(ts, j + 1) # "prop" THEN Fail(j + 1)
          ELSE IF K(ts, j + 2) = "call" THEN
                 LET a == Args(ts, j + 3) IN IF ~a.ok THEN a
-                ELSE Loop(ts, "(" \o left \o S(ts, j) \o S(ts, j + 1) \o "(" \o a.t \o "))", a.n + 1, m)
-              ELSE Loop(ts, "(" \o left \o S(ts, j) \o S(ts, j + 1) \o ")", j + 2, m)
+                ELSE Loop(ts, "(" \o left \o S(ts, j) \o S(ts, j + 1) \o "(" \o a.t \o "))",
+                          la \o S(ts, j) \o S(ts, j + 1) \o "(" \o a.a \o ")", a.n + 1, m)
+              ELSE Loop(ts, "(" \o left \o S(ts, j) \o S(ts, j + 1) \o ")", la \o S(ts, j) \o S(ts, j + 1) \o "()", j + 2, m)
     [] k = "inf" /\ ts[j].l > m ->           \* left associative: the right operand binds strictly tighter
          LET r == PE(ts, j + 1, ts[j].l) IN IF ~r.ok THEN r
-         ELSE Loop(ts, "(" \o left \o " " \o S(ts, j) \o " " \o r.t \o ")", r.n, m)
+         ELSE Loop(ts, "(" \o left \o " " \o S(ts, j) \o " " \o r.t \o ")", "(" \o la \o " " \o S(ts, j) \o " " \o r.a \o ")", r.n, m)
     [] k = "rasg" /\ LRAssign > m ->
          IF K(ts, j + 1) # "id" THEN Fail(j + 1)
          ELSE IF K(ts, j + 2) \in {"call", "lb"} THEN Fail(j + 2)   \* the target is a bare name: `a => b(q)`, `a => b[0]` are not statements
-         ELSE Loop(ts, "(" \o left \o " => " \o S(ts, j + 1) \o ")", j + 2, m)
+         ELSE Loop(ts, "(" \o left \o " => " \o S(ts, j + 1) \o ")", "(" \o S(ts, j + 1) \o " := " \o la \o ")", j + 2, m)
     [] k = "if" /\ LIf > m ->
          LET c == PE(ts, j + 1, LIf) IN IF ~c.ok THEN c
          ELSE IF K(ts, c.n) = "else" THEN
                 LET e == PE(ts, c.n + 1, LElse) IN IF ~e.ok THEN e
-                ELSE Loop(ts, "(" \o left \o " if " \o c.t \o " else " \o e.t \o ")", e.n, m)
-              ELSE Loop(ts, "(" \o left \o " if " \o c.t \o ")", c.n, m)
-    [] OTHER -> Res(left, j, FALSE)
+                ELSE Loop(ts, "(" \o left \o " if " \o c.t \o " else " \o e.t \o ")", "(" \o la \o " if " \o c.a \o " else " \o e.a \o ")", e.n, m)
+              ELSE Loop(ts, "(" \o left \o " if " \o c.t \o ")", "(" \o la \o " if " \o c.a \o ")", c.n, m)
+    [] OTHER -> Res(left, la, j, FALSE)
 
 PE(ts, i, m) ==
   LET p == Prim(ts, i) IN
-  IF ~p.ok THEN p ELSE Loop(ts, p.t, p.n, m)
+  IF ~p.ok THEN p
+  ELSE LET r == Loop(ts, p.t, p.a, p.n, m) IN
+       IF r.ok /\ r.n = p.n THEN [r EXCEPT !.lit = p.lit] ELSE r      \* a bare literal stays a literal
 
-(* a statement: expression, jump statement, or guarded jump statement *)
-Paren(ts) ==
+(* a statement: expression, jump statement, or guarded jump statement; field t / a as above *)
+Stmt(ts) ==
   IF K(ts, 1) = "jump" THEN
-     LET e == PE(ts, 2, LJump) IN IF ~e.ok THEN "SYNTAX"
+     LET e == PE(ts, 2, LJump) IN IF ~e.ok THEN Fail(0)
      ELSE IF K(ts, e.n) = "if" THEN
             LET c == PE(ts, e.n + 1, LGuard) IN
-            IF ~c.ok \/ c.n <= Len(ts) THEN "SYNTAX" ELSE S(ts, 1) \o " " \o e.t \o " if " \o c.t
-          ELSE IF e.n <= Len(ts) THEN "SYNTAX" ELSE S(ts, 1) \o " " \o e.t
-  ELSE LET e == PE(ts, 1, 0) IN IF ~e.ok \/ e.n <= Len(ts) THEN "SYNTAX" ELSE e.t
+            IF ~c.ok \/ c.n <= Len(ts) THEN Fail(0)
+            ELSE Res(S(ts, 1) \o " " \o e.t \o " if " \o c.t, S(ts, 1) \o " " \o e.a \o " if " \o c.a, c.n, FALSE)
+          ELSE IF e.n <= Len(ts) THEN Fail(0) ELSE Res(S(ts, 1) \o " " \o e.t, S(ts, 1) \o " " \o e.a, e.n, FALSE)
+  ELSE LET e == PE(ts, 1, 0) IN IF ~e.ok \/ e.n <= Len(ts) THEN Fail(0) ELSE e
+Paren(ts) == Stmt(ts).t
+AstText(ts) == Stmt(ts).a
 
 (* source text of a token sequence: tokens that attach to their left neighbour are glued *)
 RECURSIVE Text(_, _)
